@@ -50,6 +50,7 @@ func phiEdgesWhere(ph *ssa.Phi, want func([]Cond) bool) (yes, no []ssa.Value) {
 }
 
 func runC01(w *World, r *Report) {
+	hrQuotaTrie(w, r, "R10")
 	hrGetCountFromContext(w, r, "R9")
 	hrGetQuotaByID(w, r, "R8")
 	hrGetHeader(w, r, "R9") // group_by_header names are looked up case-insensitively
